@@ -790,8 +790,8 @@ watch:
 			st.add("cases_aborted", 1)
 			return // the dispatcher never comes back: abandon the case (own server, nothing shared)
 		}
-		if time.Since(started) > 5*time.Minute {
-			res.Inconclusive(fmt.Sprintf("case %d: dispatch phase still running after 5 minutes", c.Index))
+		if time.Since(started) > 15*time.Minute {
+			res.Inconclusive(fmt.Sprintf("case %d: dispatch phase still running after 15 minutes", c.Index))
 			return
 		}
 	}
@@ -825,17 +825,15 @@ watch:
 
 	// bounded quiescence: all accepted acknowledged, or the endpoint saw no request for `idle`
 	idle := 2*time.Second + 10*time.Duration(c.FlushMaxWaitMs+c.TimeoutMs)*time.Millisecond
+	// returns false only when the watchdog ended the wait (endpoint still busy): no verdict then
 	quiesce := func() bool {
 		t0 := time.Now()
 		for {
-			if srv.distinctAcked() >= accepted {
+			if srv.distinctAcked() >= accepted || srv.idleFor() > idle {
 				return true
 			}
-			if srv.idleFor() > idle {
-				return false
-			}
-			if time.Since(t0) > 3*time.Minute {
-				res.Inconclusive(fmt.Sprintf("case %d: endpoint still receiving requests after 3 minutes of waiting for quiescence", c.Index))
+			if time.Since(t0) > 10*time.Minute {
+				res.Inconclusive(fmt.Sprintf("case %d: endpoint still receiving requests after 10 minutes of waiting for quiescence", c.Index))
 				return false
 			}
 			time.Sleep(20 * time.Millisecond)
@@ -906,7 +904,10 @@ shutwait:
 	}
 
 	// ---- what got acknowledged
-	quiesce()
+	if !quiesce() {
+		st.add("cases_aborted", 1)
+		return // still busy when the watchdog fired: neither held nor violated
+	}
 	// snapshot of the server's log (late handlers of abandoned requests may still be running)
 	srv.mu.Lock()
 	reqs := make([]reqRec, len(srv.reqs))
